@@ -774,7 +774,7 @@ nnls_normal_block3(cholmod_sparse *AtA, cholmod_dense *Atb, int verbose,
         long nFprime, nGprime, nF_, nG_;
         int i, j, k;
         int iter, max_iter, solves, residual_calcs;
-        int feasible;
+        int feasible, at_minimum;
         clock_t t0, t1;
         double kkt_tolerance, y_min, residual;
 
@@ -833,6 +833,8 @@ nnls_normal_block3(cholmod_sparse *AtA, cholmod_dense *Atb, int verbose,
 	 * that y = -Atb.
 	 */
 	AtA_F = NULL; x_F = NULL; Atb_F = NULL; L = NULL; 
+	/* x = 0 trivially minimizes the residual over the empty passive set */
+	at_minimum = true;
 	x = cholmod_l_zeros(nvar, 1, CHOLMOD_REAL, c); 	
 	y = cholmod_l_copy_dense(Atb, c);
 	for (i = 0; i < nvar; i++) {
@@ -916,9 +918,12 @@ nnls_normal_block3(cholmod_sparse *AtA, cholmod_dense *Atb, int verbose,
 
                 /*
                  * If we've satisfied the KKT conditions, we're done. 
+                 * The multipliers only certify optimality if x minimizes
+                 * the residual over its passive set; after a projected
+                 * line-search step it does not (yet), so solve again.
                  */
 
-                if (nH2 == 0) break;
+                if (nH2 == 0 && at_minimum) break;
 
                 ninf = nH1 + nH2;
 
@@ -1023,6 +1028,7 @@ nnls_normal_block3(cholmod_sparse *AtA, cholmod_dense *Atb, int verbose,
                                             ((double*)(x_F->x))[i];
                                 cholmod_l_free_dense(&x_F, c);
                                 feasible = true;
+                                at_minimum = true;
 
                                 if (verbose)
                                         printf("\tSolution entirely "
@@ -1089,6 +1095,7 @@ nnls_normal_block3(cholmod_sparse *AtA, cholmod_dense *Atb, int verbose,
                                 feasible = walk_descents(AtA_F, Atb_F, x, x_F,
                                     F, &nF, H1, &nH1, &residual,
                                     &residual_calcs, verbose, c);
+                                at_minimum = false;
 
                         } /* if (nF_inf == 0) */
 
